@@ -23,6 +23,17 @@ theorem iterate_resync (segs : List (Bytes × Bytes)) (tail : Bytes) (hs : ∀ j
   have := iter_file segs tail hs ht [] ((fileOf segs tail).length + 1) (by omega)
   simpa [iterate] using this
 
+/-- non-vacuity: junk that ends in 0x25 before a 9-byte packet, empty junk before an 8-byte packet, a sync-free tail
+    ending in 0x25 -/
+example : (∀ jp ∈ [(([0x00, 0x25, 0x25, 0xEC, 0xEB, 0x25] : Bytes), ([0x25, 0xEB, 7, 0, 9, 0, 0, 0, 0xAA] : Bytes)),
+                    ([], [0x25, 0xEB, 7, 0, 8, 0, 0, 0])], Seg jp) ∧ syncFree [0xEB, 0x25] = true := by
+  refine ⟨?_, by decide⟩
+  intro jp hjp
+  simp only [List.mem_cons, List.not_mem_nil, or_false] at hjp
+  rcases hjp with rfl | rfl
+  · exact ⟨by decide, ⟨7, 0, 9, 0, 0, 0, [0xAA], rfl, by decide⟩⟩
+  · exact ⟨by decide, ⟨7, 0, 8, 0, 0, 0, [], rfl, by decide⟩⟩
+
 /-- write then iterate: well-formed Chapter 11 objects (standard sync word; with or without secondary header,
     payload lengths in every residue) written in one "wb" session are returned by iteration as the very byte
     strings `pack` produced, in the same order -/
@@ -46,6 +57,55 @@ theorem write_then_iterate (old : Bytes) (ss : List Acra.Model.Ch11.State)
   simp only [writeAll, if_true, hitems, writeItems_packed]
   simp
 
+/-- non-vacuity: one object without and one with secondary header (payload lengths 5 and 3: both need filler).
+    Excluded by `WFn`/`WFs`: objects with `data_checksum_size ≠ 0` and a non-standard sync pattern. -/
+example : ∀ s ∈ [({ Acra.Model.Ch11.fresh with
+      channelID := 0x1234, sequence := 3, packetflag := 0x35, datatype := 0x50, relativetimecounter := 0xFFFFFFFFFFFF,
+      payload := [1, 2, 3, 4, 5] } : Acra.Model.Ch11.State),
+    { Acra.Model.Ch11.fresh with
+      channelID := 7, packetflag := 0xF7, has_secondary_header := true, ts_source := TS_IEEE1558,
+      ptptime := ⟨1700000000, 999999999⟩, payload := [9, 8, 7] }],
+    (Acra.Lemmas.Ch11.WFn s ∨ Acra.Lemmas.Ch11.WFs s) ∧ s.syncpattern = SYNC_WORD := by
+  intro s hs
+  simp only [List.mem_cons, List.not_mem_nil, or_false] at hs
+  rcases hs with rfl | rfl
+  · exact ⟨Or.inl (by simp [Acra.Lemmas.Ch11.WFn, Acra.Model.Ch11.fresh, DEFAULT_SYNCPATTERN, DEFAULT_DATATYPEVERSION, TS_RTC]), rfl⟩
+  · exact ⟨Or.inr (by simp [Acra.Lemmas.Ch11.WFs, Acra.Model.Ch11.fresh, DEFAULT_SYNCPATTERN, DEFAULT_DATATYPEVERSION]), rfl⟩
+
+/-- write then iterate for ANY mix of Chapter 11 objects (`true`: the successful `pack()` result of the object is written)
+    and raw `bytes` items (`false`), each byte string being a packet in the reader's sense: the file is their
+    concatenation and iteration returns the very byte strings, in order -/
+theorem write_mixed_then_iterate (old : Bytes) (its : List (Bool × Bytes)) (h : ∀ it ∈ its, IsPacket it.2) :
+    ∃ o, writeAll old "wb" (its.map fun it => if it.1 then Item.packed (.ok it.2) else Item.raw it.2) =
+        ((its.map (·.2)).flatten, .ok ()) ∧
+      iterate (its.map (·.2)).flatten = .ok (its.map (·.2), o) := by
+  have hw : ∀ acc, writeItems acc (its.map fun it => if it.1 then Item.packed (.ok it.2) else Item.raw it.2) =
+      (acc ++ (its.map (·.2)).flatten, .ok ()) := by
+    induction its with
+    | nil => intro acc; simp [writeItems]
+    | cons it its ih =>
+      intro acc
+      have ih := ih (fun x hx => h x (by simp [hx]))
+      obtain ⟨k, b⟩ := it
+      cases k <;> simp [writeItems, ih]
+  have hseg : ∀ jp ∈ (its.map (·.2)).map (fun p => (([] : Bytes), p)), Seg jp := by
+    intro jp hjp
+    simp only [List.mem_map] at hjp
+    obtain ⟨p, ⟨it, hit, rfl⟩, rfl⟩ := hjp
+    exact ⟨rfl, h it hit⟩
+  obtain ⟨o, ho⟩ := iterate_resync _ [] hseg rfl
+  rw [fileOf_nojunk] at ho
+  refine ⟨o, ?_, by simpa [List.map_map, Function.comp_def] using ho⟩
+  simp only [writeAll, if_true]
+  simpa using hw []
+
+example : ∀ it ∈ [(false, ([0x25, 0xEB, 7, 0, 9, 0, 0, 0, 0xAA] : Bytes)), (true, [0x25, 0xEB, 7, 0, 8, 0, 0, 0])], IsPacket it.2 := by
+  intro it hit
+  simp only [List.mem_cons, List.not_mem_nil, or_false] at hit
+  rcases hit with rfl | rfl
+  · exact ⟨7, 0, 9, 0, 0, 0, [0xAA], rfl, by decide⟩
+  · exact ⟨7, 0, 8, 0, 0, 0, [], rfl, by decide⟩
+
 /-- truncation (crash = prefix): for the file cut at ANY byte `t`, iteration returns exactly the packets that
     are completely present in the first `t` bytes (`completeIn t segs`), unchanged and in order, then stops -/
 theorem truncation (segs : List (Bytes × Bytes)) (tail : Bytes) (hs : ∀ jp ∈ segs, Seg jp)
@@ -62,6 +122,14 @@ theorem completeIn_spec (j p : Bytes) (segs : List (Bytes × Bytes)) (t : Nat) :
     completeIn t ((j, p) :: segs) =
       if j.length + p.length ≤ t then p :: completeIn (t - (j.length + p.length)) segs else [] := rfl
 
+/-- the hypotheses of `truncation` are those of `iterate_resync` (witness above); what `completeIn` says on that file:
+    cut one byte short of the end of the first packet nothing is returned, cut exactly there the first packet is -/
+example :
+    let segs : List (Bytes × Bytes) := [([0x00, 0x25, 0x25, 0xEC, 0xEB, 0x25], [0x25, 0xEB, 7, 0, 9, 0, 0, 0, 0xAA]),
+                                         ([], [0x25, 0xEB, 7, 0, 8, 0, 0, 0])]
+    completeIn 14 segs = [] ∧ completeIn 15 segs = [[0x25, 0xEB, 7, 0, 9, 0, 0, 0, 0xAA]] ∧
+    completeIn 22 segs = [[0x25, 0xEB, 7, 0, 9, 0, 0, 0, 0xAA]] ∧ (completeIn 23 segs).length = 2 := by decide
+
 /-- for every file contents whatsoever: iteration stops, and yields no more items than the file has bytes,
     none of them empty -/
 theorem items_le_bytes (data : Bytes) :
@@ -73,6 +141,8 @@ theorem items_le_bytes (data : Bytes) :
 theorem write_needs_wb (old : Bytes) (mode : String) (i : Item) (items : List Item) (h : mode ≠ "wb") :
     writeAll old mode (i :: items) = (old, .error .generic) := by
   simp [writeAll, h]
+
+example : ("ab" : String) ≠ "wb" := by decide
 
 /-- `write` of something that is neither a Chapter 11 object nor `bytes` raises; what was written before stays -/
 theorem write_other_raises (old : Bytes) (bs : List Bytes) (items : List Item) :
